@@ -772,10 +772,14 @@ func (in *inliner) rewriteFunc(fd *ast.FuncDecl) {
 			}
 			for _, r := range roots {
 				if h, _ := in.helperOf(*r); h != nil && h.expr == nil {
-					if _, isRange := st.(*ast.RangeStmt); !isRange {
-						if _, isIf := st.(*ast.IfStmt); !isIf {
-							continue // the whole operand: handled by the statement forms
-						}
+					_, isRange := st.(*ast.RangeStmt)
+					_, isIf := st.(*ast.IfStmt)
+					as, isAssign := st.(*ast.AssignStmt)
+					opAssign := isAssign && (len(as.Rhs) != 1 || (as.Tok != token.DEFINE && as.Tok != token.ASSIGN)) // `x += h(a)`
+					rs, isRet := st.(*ast.ReturnStmt)
+					multiRet := isRet && len(rs.Results) > 1 // `return h(a), nil`
+					if !isRange && !isIf && !opAssign && !multiRet {
+						continue // the whole operand: handled by the statement forms
 					}
 				}
 				holder := &ast.ParenExpr{X: *r}
